@@ -150,6 +150,39 @@ class DB:
             return m[inst]
         return next(iter(m.values()))
 
+    def resolve(self, caller, key, callee_inst=None):
+        """the instance of function `key` that a call made from `caller` reaches: exact instantiation name when known; closures are
+        matched to the caller's own enclosing instantiation"""
+        m = self.inst.get(key)
+        if not m:
+            return None
+        if callee_inst and callee_inst in m:
+            return m[callee_inst]
+        cands = list(m.values())
+        if cands[0].get('lambda') and caller is not None:
+            pi = caller.get('parent_inst') if caller.get('lambda') else caller.get('inst')
+            c2 = [c for c in cands if c.get('parent_inst') == pi]
+            if c2:
+                cands = c2
+        if callee_inst:
+            c3 = [c for c in cands if c.get('plain_inst') == callee_inst]
+            if c3:
+                return c3[0]
+        return cands[0]
+
+    def closure_instances(self, caller, key):
+        """all specialisations of the closure `key` that belong to the caller's enclosing instantiation (a generic lambda has several)"""
+        m = self.inst.get(key)
+        if not m:
+            return []
+        cands = list(m.values())
+        if caller is not None:
+            pi = caller.get('parent_inst') if caller.get('lambda') else caller.get('inst')
+            c2 = [c for c in cands if c.get('parent_inst') == pi]
+            if c2:
+                cands = c2
+        return cands
+
     def lambdas_in(self, parent_key):
         return [k for k in self.inst if self.rep(k).get('lambda') and self.rep(k).get('parent_key') == parent_key]
 
@@ -362,13 +395,15 @@ class Tracer:
             args = ee.get('args') or []
             if idx < len(args) and (args[idx].get('opath') or args[idx]['path']).startswith('lambda@'):
                 lk = (args[idx].get('opath') or args[idx]['path'])[len('lambda@'):]
-                lf = self.db.get(lk)
-                if lf and self.inline_filter(caller, ee, lf):
-                    return self.traces(lf, d + 1, self.lambda_env(lf, stack, []), stack)
+                out = None
+                for lf in self.db.closure_instances(caller, lk):
+                    if self.inline_filter(caller, ee, lf):
+                        out = (out or []) + self.traces(lf, d + 1, self.lambda_env(lf, stack, []), stack)
+                return out
             return None
         if any(fr[0] == key for fr in stack):
             return None
-        callee = self.db.get(key, ee.get('callee_inst'))
+        callee = self.db.resolve(caller, key, ee.get('callee_inst'))
         if callee is None or not self.inline_filter(caller, ee, callee):
             return None
         if callee.get('lambda'):
